@@ -7,5 +7,8 @@ STUBS = [
     "int(obj) for rv objects defining __int__ (Visualization): module-global `int` shadowed in rv.modules.module so that __int__ is called directly (the C-level int() rejects a symbolic return value)",
     "crosshair.core.suspected_proxy_intolerance_exception disabled: a TypeError naming a symbolic type is reported (and must replay) instead of the path being silently skipped",
     "solver portfolio: when CrossHair's incremental z3 answers unknown, the same assertions are re-decided by fresh z3 solvers (arith.solver 2 / default / 6, 20 s each) before the path is given up",
+    "`int in <symbolic bytes>` compares element by element (stock CrossHair realises the whole byte string)",
+    "pack/unpack memo: int.from_bytes(x.to_bytes(n, order, signed=s), order, signed=s) returns x itself when the very same byte terms come back with the same order and signedness (otherwise the stock byte-wise model is used, so width/signedness mismatches between writer and reader are still modelled)",
+    "bytes.ljust on symbolic bytes pads symbolically (stock CrossHair realises the value)",
     "text inputs exclude NUL and lone surrogates (C strings, UTF-8)",
 ]
